@@ -501,6 +501,149 @@ func otherMask(rng *RNG, opt string) string {
 	}
 }
 
+// ---------------------------------------------------------------- single-token perturbation (near misses)
+
+var tailOctets = []string{"2", "3", "22", "23", "32", "33", "222", "223", "232", "233"}
+var tailLens = []string{"2", "3", "20", "22", "23", "24", "29", "30", "31", "32"}
+
+// nearMiss returns a copy of the rule with exactly ONE token changed to a near-miss value, and what was changed.
+func nearMiss(rng *RNG, r []string) ([]string, string) {
+	out := append([]string{}, r...)
+	idx := rng.Intn(len(out))
+	// prefer an address if there is one (the tail of -s/-d values is where suffix handling lives)
+	if rng.Chance(55) {
+		for i, o := range out {
+			if strings.HasPrefix(o, "s~") || strings.HasPrefix(o, "d~") {
+				idx = i
+				break
+			}
+		}
+	}
+	f := strings.Split(out[idx], "~")
+	pickOther := func(cur string, pool []string) string {
+		for {
+			v := Pick(rng, pool)
+			if v != cur {
+				return v
+			}
+		}
+	}
+	what := f[0]
+	switch f[0] {
+	case "s", "d": // s~neg~ip~len~h
+		switch rng.Intn(10) {
+		case 0:
+			f[1] = map[string]string{"n": "b", "b": "n", "a": "n"}[f[1]]
+			what += ":negation"
+		case 1, 2, 3, 4:
+			i := strings.LastIndex(f[2], ".")
+			f[2] = f[2][:i+1] + pickOther(f[2][i+1:], tailOctets)
+			what += ":last-octet"
+		default:
+			f[3] = pickOther(f[3], tailLens)
+			what += ":prefix-length"
+		}
+	case "i":
+		f[2] = pickOther(f[2], []string{"eth0", "eth1", "eth01", "eth10", "bond0.12", "bond0.1"})
+	case "p": // p~neg~proto~upper~num
+		if rng.Chance(25) && f[2] != "vrrp" && f[2] != "ipv6icmp" {
+			f[1] = map[string]string{"n": "b", "b": "n", "a": "n"}[f[1]]
+			what += ":negation"
+		} else {
+			f[2] = pickOther(f[2], []string{"tcp", "udp", "icmp", "#50", "#5", "#51", "#47"})
+			f[3], f[4] = "0", "0"
+			if f[2] == "icmp" || strings.HasPrefix(f[2], "#") {
+				// ports belong to tcp/udp only
+				var keep []string
+				for j, o := range out {
+					if j == idx || !(strings.HasPrefix(o, "sp~") || strings.HasPrefix(o, "dp~") || strings.HasPrefix(o, "syn~") || strings.HasPrefix(o, "m~") || strings.HasPrefix(o, "it~")) {
+						keep = append(keep, o)
+					} else if j < idx {
+						idx--
+					}
+				}
+				keep[idx] = strings.Join(f, "~")
+				return keep, what + ":protocol(match options dropped)"
+			}
+		}
+	case "sp", "dp": // sp~(1|r)~lo~hi~zeros~open
+		if f[1] == "1" {
+			f[2] = pickOther(f[2], []string{"2", "22", "23", "222", "80", "8080", "8", "443", "65535", "6553"})
+		} else if rng.Bool() {
+			f[2] = pickOther(f[2], []string{"0", "1", "10", "1024", "1023", "102"})
+		} else {
+			f[3] = pickOther(f[3], []string{"65535", "65534", "6553", "1023", "1024", "4000", "40000"})
+		}
+		if f[1] == "r" {
+			lo, _ := strconv.Atoi(f[2])
+			hi, _ := strconv.Atoi(f[3])
+			if lo >= hi || (lo == 0 && hi == 65535) {
+				f[2], f[3] = "1", "65534"
+			}
+		}
+	case "it":
+		f[1] = pickOther(f[1], []string{"0", "8", "3", "3/1", "3/13", "11", "30"})
+	case "st":
+		f[1] = pickOther(f[1], []string{"E", "ER", "RE", "N", "NE", "ERN", "I"})
+		if len(f[1]) == 2 && f[1][0] == f[1][1] {
+			f[1] = f[1][:1]
+		}
+	case "j", "g":
+		f[1] = pickOther(f[1], []string{"ACCEPT", "DROP", "c1", "c2", "c11", "droplog"})
+	case "ll":
+		f[1] = pickOther(f[1], []string{"7", "4", "6", "17", "70"})
+	case "mk": // mk~hex~mask~x~text : the device side is kernel spelling, only value and mask matter
+		if rng.Bool() {
+			f[1] = pickOther(f[1], []string{"1", "10", "11", "f", "ff", "2a", "0"})
+		} else {
+			f[2] = pickOther(f[2], markMasks)
+		}
+		f[3], f[4] = "0", "0"
+	case "ts":
+		i := strings.LastIndex(f[1], ".")
+		f[1] = f[1][:i+1] + pickOther(f[1][i+1:], tailOctets)
+	case "syn":
+		f[1] = map[string]string{"0": "1", "1": "0"}[f[1]]
+	default:
+		return out, ""
+	}
+	out[idx] = strings.Join(f, "~")
+	return out, what
+}
+
+// nearMissRule: a rule rich in tokens whose tails matter
+func nearMissRule(rng *RNG) []string {
+	oct := Pick(rng, tailOctets)
+	var o []string
+	switch rng.Intn(5) {
+	case 0:
+		o = []string{"j~ACCEPT", fmt.Sprintf("s~%s~10.1.1.%s~32~%s", negHint(rng, 10), oct, b2s(rng.Bool())), "p~n~tcp~0~0", genPorts(rng, "dp")}
+	case 1:
+		o = []string{"j~" + Pick(rng, chainTargets), fmt.Sprintf("d~n~10.2.0.0~%s~%s", Pick(rng, tailLens), b2s(rng.Bool())), "i~n~" + Pick(rng, devPool)}
+	case 2:
+		o = []string{"g~c1", fmt.Sprintf("s~n~10.1.1.%s~32~%s", oct, b2s(rng.Bool())), fmt.Sprintf("d~n~10.1.2.%s~%s~0", Pick(rng, tailOctets), Pick(rng, []string{"32", "32", "23", "22"})), "p~n~udp~1~0", genPorts(rng, "sp")}
+	case 3:
+		o = []string{"j~MARK", genMark(rng, false), fmt.Sprintf("d~n~10.1.1.%s~32~0", oct), "p~n~tcp~0~0"}
+	default:
+		o = genRule(rng, ruleOpts{})
+		if rng.Bool() {
+			o = append(o, fmt.Sprintf("s~n~10.1.1.%s~32~%s", oct, b2s(rng.Bool())))
+		}
+	}
+	// no option key twice
+	seen := map[string]bool{}
+	var res []string
+	for _, x := range o {
+		k := x[:strings.Index(x, "~")]
+		if !seen[k] {
+			seen[k] = true
+			res = append(res, x)
+		}
+	}
+	Shuffle(rng, res)
+	return res
+}
+
 type ruleOpts struct {
 	unnegSyn, stateWithProtoMatch bool
 }
@@ -1236,6 +1379,37 @@ func runC05(ctx *Ctx) *Result {
 			c.TgtRS = genRS(rng, ruleOpts{})
 			c.DevRS = mutateRS(rng, c.TgtRS, res, false)
 		}
+		runCase(c)
+	}
+	// single-token perturbation: device = target except for ONE token changed to a near-miss value
+	// (address tail, prefix length, port, protocol, interface, mark, policy, negation, jump target, table name);
+	// a change must be reported (oracle: iptables_change_missed otherwise) and the restore must converge
+	for i := 0; i < ctx.N(150, 6000); i++ {
+		rng := base.Fork()
+		c := &c05Case{Abstract: true, Names: rng.Bool(), Stream: "near-miss"}
+		var rules [][]string
+		n := 1 + rng.Intn(3)
+		for j := 0; j < n; j++ {
+			rules = append(rules, nearMissRule(rng))
+		}
+		c.TgtRS = []aTable{{Name: "filter", Chains: []aChain{{Name: "INPUT", Policy: "DROP", Rules: rules}, {Name: "c1", Policy: "-"}}}}
+		c.DevRS = cloneRS(c.TgtRS)
+		what := ""
+		switch k := rng.Intn(100); {
+		case k < 5:
+			c.DevRS[0].Chains[0].Policy = "ACCEPT"
+			what = "policy"
+		case k < 8:
+			c.DevRS[0].Chains[1].Name = "c11"
+			what = "chain-name"
+		case k < 11:
+			c.DevRS[0].Name = "filter2"
+			what = "table-name"
+		default:
+			j := rng.Intn(len(rules))
+			c.DevRS[0].Chains[0].Rules[j], what = nearMiss(rng, c.DevRS[0].Chains[0].Rules[j])
+		}
+		res.Count("near-miss:" + what)
 		runCase(c)
 	}
 	// MARK rules whose device counterpart differs only in the mask (or not at all)
